@@ -40,6 +40,8 @@ type Evaluator struct {
 	Input func(v ssa.Value) (EVal, bool)
 	// Observe is called for every instruction executed on a path with the current environment lookup.
 	Observe func(in ssa.Instruction, get func(ssa.Value) EVal)
+	// Call evaluates a call instruction (nil: calls yield Unknown).
+	Call func(call *ssa.Call, get func(ssa.Value) EVal) (EVal, bool)
 	// MaxPaths bounds the exploration.
 	MaxPaths int
 	// MaxVisits bounds how often one path may re-enter a block (loop unrolling); default 2.
@@ -92,10 +94,11 @@ func (ev *Evaluator) get(env *evalEnv, v ssa.Value) EVal {
 	switch c := v.(type) {
 	case *ssa.Const:
 		if c.Value == nil {
-			if _, isBasic := c.Type().Underlying().(*types.Basic); !isBasic {
+			switch c.Type().Underlying().(type) {
+			case *types.Pointer, *types.Interface, *types.Map, *types.Slice, *types.Chan, *types.Signature:
 				return EVal{K: ENil}
 			}
-			return EVal{}
+			return EVal{} // zero value of an aggregate
 		}
 		switch c.Value.Kind() {
 		case constant.Int:
@@ -173,6 +176,15 @@ func (ev *Evaluator) runBlock(b, from *ssa.BasicBlock, env *evalEnv) {
 					if v, ok := env.mem[al]; ok {
 						env.vals[x] = v
 					}
+				}
+			}
+		case *ssa.MakeInterface:
+			// boxing a concrete value never yields a nil interface
+			env.vals[x] = EVal{K: EPtr, Tok: x}
+		case *ssa.Call:
+			if ev.Call != nil {
+				if v, ok := ev.Call(x, get); ok {
+					env.vals[x] = v
 				}
 			}
 		case *ssa.Convert:
@@ -258,4 +270,66 @@ func evalBin(op token.Token, a, b EVal) EVal {
 		}
 	}
 	return EVal{}
+}
+
+// EvalPure evaluates a side-effect-free function of integer/bool arguments in the
+// finite domain and returns the set of values its first result can take
+// (Unknown included as K == EUnknown).  Calls to other functions with bodies are
+// evaluated recursively (bounded); fmt.Errorf / errors.New yield a non-nil value.
+func EvalPure(f *ssa.Function, args []EVal, depth int) []EVal {
+	var out []EVal
+	if f == nil || f.Blocks == nil || depth > 4 {
+		return []EVal{{}}
+	}
+	ev := &Evaluator{MaxVisits: 3}
+	ev.Input = func(v ssa.Value) (EVal, bool) {
+		if p, ok := v.(*ssa.Parameter); ok {
+			for i, fp := range f.Params {
+				if fp == p && i < len(args) {
+					return args[i], true
+				}
+			}
+		}
+		return EVal{}, false
+	}
+	ev.Call = func(call *ssa.Call, get func(ssa.Value) EVal) (EVal, bool) {
+		sc := call.Call.StaticCallee()
+		if sc == nil {
+			return EVal{}, false
+		}
+		if sc.Pkg != nil {
+			switch sc.Pkg.Pkg.Path() + "." + sc.Name() {
+			case "fmt.Errorf", "errors.New":
+				return EVal{K: EPtr, Tok: call}, true
+			}
+		}
+		if sc.Blocks == nil {
+			return EVal{}, false
+		}
+		var as []EVal
+		for _, a := range call.Call.Args {
+			as = append(as, get(a))
+		}
+		rs := EvalPure(sc, as, depth+1)
+		if len(rs) == 1 {
+			return rs[0], true
+		}
+		return EVal{}, false
+	}
+	ev.Observe = func(in ssa.Instruction, get func(ssa.Value) EVal) {
+		if r, ok := in.(*ssa.Return); ok && len(r.Results) > 0 {
+			v := get(r.Results[0])
+			for _, o := range out {
+				if o == v {
+					return
+				}
+			}
+			out = append(out, v)
+		}
+	}
+	ev.Run(f)
+	if len(out) == 0 {
+		return []EVal{{}}
+	}
+	return out
 }
